@@ -151,7 +151,14 @@ class Queue(Entity):
         next_item = self.policy.pop()
         if next_item is None:
             logger.debug("[%s] Poll received but queue is empty", self.name)
-            return []
+            if event.requestor is None:
+                return []
+            # Answer anyway so the requestor knows its poll is no longer outstanding
+            return [
+                QueueDeliverEvent(
+                    time=self.now, target=event.requestor, payload=None, queue_entity=self
+                )
+            ]
 
         logger.debug(
             "[%s] Delivering event to driver: type=%s depth=%d",
